@@ -345,7 +345,7 @@ func DrawVerifyCase(t *rapid.T) VerifyCase {
 	d, _, _ := PrivKey(t, "d")
 	px, py, pub := Pub(d)
 	cls := gen.Pick(t, "vclass", "valid", "valid-shaped", "bitflip", "bitflip", "length", "r=0", "s=0", "s=n", "r+s=n", "R=inf", "r+n", "s+n",
-		"x+p", "y>=p", "offcurve", "negY", "zeroKey", "garbage", "swap", "r>=n", "e+n", "chosen-R", "chosen-R", "chosen-R")
+		"x+p", "y>=p", "offcurve", "negY", "zeroKey", "garbage", "swap", "r>=n", "e+n", "chosen-R", "chosen-R", "chosen-R", "modshift", "modshift")
 	// a valid signature to start from
 	mk := func(shaped bool) (e, rb, sb []byte) {
 		for {
@@ -587,6 +587,43 @@ func DrawVerifyCase(t *rapid.T) VerifyCase {
 		if gen.Bool(t, "validKey") {
 			c.Px, c.Py = px, py
 		}
+	case "modshift":
+		// A valid signature with ONE field moved by a difference of the moduli in play (n, p, 2^256): the values an implementation
+		// confusing two reductions (mod n vs mod p vs mod 2^256, or a wrapped second candidate for x_R) would treat as equivalent.
+		// The reference decides (almost always: reject; +-n on e stays valid).
+		c.E, c.R, c.S = mk(gen.Bool(t, "shaped"))
+		var delta *big.Int
+		dn := gen.Pick(t, "delta", "n", "p", "p-n", "2^256-n", "2^256-p", "2(p-n)")
+		switch dn {
+		case "n":
+			delta = new(big.Int).Set(N)
+		case "p":
+			delta = new(big.Int).Set(gen.P)
+		case "p-n":
+			delta = new(big.Int).Sub(gen.P, N)
+		case "2^256-n":
+			delta = new(big.Int).Sub(T256, N)
+		case "2^256-p":
+			delta = new(big.Int).Sub(T256, gen.P)
+		default:
+			delta = new(big.Int).Lsh(new(big.Int).Sub(gen.P, N), 1)
+		}
+		if gen.Bool(t, "neg") {
+			delta.Neg(delta)
+			dn = "-" + dn
+		}
+		f := gen.Pick(t, "mfield", "e", "e", "r", "s")
+		red := gen.Pick(t, "reduce", "mod n", "mod 2^256")
+		ptr := map[string]*[]byte{"e": &c.E, "r": &c.R, "s": &c.S}[f]
+		v := new(big.Int).SetBytes(*ptr)
+		v.Add(v, delta)
+		if red == "mod n" {
+			v.Mod(v, N)
+		} else {
+			v.Mod(v, T256)
+		}
+		*ptr = gen.Pad32(v)
+		c.Class = "modshift:" + f + dn
 	case "swap":
 		c.E, c.R, c.S = mk(false)
 		c.R, c.S = c.S, c.R
